@@ -685,3 +685,75 @@ func init() {
 		panic(engineErr("strings.ToLower not modelled"))
 	}
 }
+
+func init() {
+	// vNondetText(site, max): a string of symbolic byte length L <= max and symbolic rune count R
+	// with R <= L <= 4R (every such pair is realisable by a valid UTF-8 string); contents are opaque.
+	extraIntrinsics["vNondetText"] = func(e *Exec, fn *ssa.Function, args []Value) Value {
+		site := e.siteKey(e.mustConstString(args[0], "nondet site"))
+		max := e.mustConstInt(args[1], "max length")
+		L := smt.Var("in:"+site+".len", smt.BV64)
+		R := smt.Var("in:"+site+".runes", smt.BV64)
+		e.addSite(NondetSite{Key: site + ".len", Kind: "u64", Term: L})
+		e.addSite(NondetSite{Key: site + ".runes", Kind: "u64", Term: R})
+		e.assume(smt.And(smt.ULe(L, c64(max)), smt.ULe(R, L), smt.ULe(L, smt.Mul(R, c64(4)))))
+		t := smt.Var("text:"+site, smt.StrS)
+		e.assume(smt.Eq(strlenOf(t), L))
+		texts, _ := e.path.extra["texts"].(map[*smt.Term]*smt.Term)
+		if texts == nil {
+			texts = map[*smt.Term]*smt.Term{}
+			e.path.extra["texts"] = texts
+		}
+		texts[t] = R
+		return Str{Fn: FnAtom{t}, Off: c0, Len: strlenOf(t)}
+	}
+	runeCount := func(e *Exec, fn *ssa.Function, args []Value) Value {
+		var sv view
+		switch x := args[0].(type) {
+		case Str:
+			sv = strView(x)
+		case Bytes:
+			sv = bytesView(x)
+		}
+		if cs, ok := sv.concrete(); ok {
+			return c64(len([]rune(cs)))
+		}
+		if t, ok := sv.wholeAtom(); ok {
+			if texts, _ := e.path.extra["texts"].(map[*smt.Term]*smt.Term); texts != nil {
+				if r, ok := texts[t]; ok {
+					return r
+				}
+			}
+		}
+		panic(engineErr("utf8.RuneCount on a string that is not a vNondetText value"))
+	}
+	stubs["unicode/utf8.RuneCountInString"] = runeCount
+	stubs["unicode/utf8.RuneCount"] = runeCount
+}
+
+func init() {
+	// Paginate / FilteredPaginate with no explicit limit apply query.DefaultLimit (a constant, 100):
+	// recorded as an event so that code which must enumerate *everything* (genesis export, filtered
+	// complete listings) can be checked not to depend on it. The real function is then executed.
+	for _, name := range []string{"github.com/cosmos/cosmos-sdk/types/query.Paginate", "github.com/cosmos/cosmos-sdk/types/query.FilteredPaginate"} {
+		stubs[name] = func(e *Exec, fn *ssa.Function, args []Value) Value {
+			defaulted := false
+			if p, ok := args[1].(Ptr); ok {
+				if p.Obj == nil {
+					defaulted = true
+				} else if st, ok := getPath(p.Obj.Val, p.Path).(*Struct); ok && len(st.Fields) >= 3 {
+					if lim, ok := st.Fields[2].(*smt.Term); ok && e.branch(smt.Eq(lim, c0)) {
+						defaulted = true
+					}
+				}
+			}
+			if defaulted {
+				e.path.events = append(e.path.events, "pagination:default-limit")
+			}
+			if fn.Pkg != nil {
+				fn.Pkg.Build()
+			}
+			return e.callFunction(fn, args, nil)
+		}
+	}
+}
